@@ -6,6 +6,8 @@ open BsVerif.Sig
 #print axioms C10_sigint_never_delivered
 #print axioms noDupStable
 #print axioms C10_nonquiet_never_duplicated
+#print axioms cleanStable
+#print axioms C10_delivery_once_partial
 #print axioms C10_delivery_once_counterexample
 #print axioms C10_delivery_lost_counterexample
 #print axioms C10_quiet_passthrough_counterexample
